@@ -19,6 +19,7 @@ import random
 
 import vcheck as V
 import _node as N
+import _persist as P
 
 RAFT = ["ready.published", "persist.before", "persist.wal", "storage.appended", "raftdone", "ready.advanced"]
 APPLY = ["apply.entry", "apply.batch.done", "apply.raftdone"]
@@ -214,6 +215,9 @@ def run(ctx):
                  snapshots_crossed=0, not_triggered=[], whitebox={})
     samples = []
     vnode, zr = N.build(ctx)
+    # stage persist-shapes: Ready shapes of ZPersist handed to the real processReady by direct call
+    stats["persist_shapes"] = P.stage(ctx)
+    ctx.log("persist-shapes: %s" % {k: v for k, v in stats["persist_shapes"].items() if k not in ("rule", "checker_cmd")})
     weak = finding_open("c06-single-replica-ack-before-persist")
     orphan_open = finding_open("c06-orphan-snapshot-files-purge")
     # while c14-pebble-checkpoint-release-timer was open, pebble scenarios of the general corpus took no
@@ -487,6 +491,7 @@ def run(ctx):
         whitebox_events=dict(stats["whitebox"], note="reports of the processReady / restart hooks that reached a trace: sent = Ready "
                              "whose messages left before its persist; replayed = restart summaries; published = Ready published "
                              "above the saved index; appended = Readys carrying a snapshot AND entries (rule TAppended)"),
+        persist_shapes=stats.get("persist_shapes"),
         weak_ack_rule_on_single_replica=weak,
         checker_cmd="tlc -config ZNodeTrace.cfg ZNodeTrace (ZR_TRACE=<trace>, workers 1, StateDeque)",
     )
